@@ -543,7 +543,7 @@ func rewriteClaims(root, id string, claims *Claims, ctx *Ctx, obls []*Obligation
 	b.WriteString(strings.Join(keep, "\n") + "\n")
 	n := 0
 	for _, d := range ds {
-		if d.OK() && (d.R.TimeS < 6 || d.O.Expect == "sat") {
+		if d.OK() && (d.R.TimeS < 3 || d.O.Expect == "sat") {
 			fmt.Fprintf(&b, "claim %s\n", d.O.Name)
 			n++
 		} else {
